@@ -41,8 +41,8 @@ chk('C17', 'fault_enumeration', "Every pattern of full/short/none deliveries ove
 chk('C18', 'fault_enumeration', "MC_Trng: TLC exhaustive over OS outcome sequences (<=8 transients) for 4 build variants, safety and liveness; every sequence with <=3 (5) transients plus long runs, short reads and open failures is injected into the real source file built in the getrandom/getentropy/raw-syscall//dev/urandom variants; each OS-call trace is validated by TLC against the TJTrng machine.",
     TLC + "; OS entry points interposed at link time", "TLA+ model MC_Trng + fault sequences from the model injected by link-time interposition + TLC trace validation", "DESIGN.md 7 C18")
 
-chk('C05', 'model_checking', "Every assembly back end (24 files, 27 target/ABI programs) is translated instruction by instruction into a TLA+ constant and executed by TLC in an ISA model (Mach32: ARM/RISC-V/Xtensa, MachAvr) for rounds 1..24 on structured and random inputs: final state = specification, write set, callee-saved registers, stack, return address, key, and a taint ghost for data-independent control flow; the C back end is trace-validated against the bit-serial NLFSR; generated files are compared with fresh generator output.",
-    TLC + "; the ISA models cover exactly the instruction subsets the shipped files use; concrete inputs, not all 2^128 x keys", "TLA+ ISA models executing the translated assembly in TLC + TLC trace validation of the C back end + byte comparison with generator output", "DESIGN.md 7 C05")
+chk('C05', 'model_checking', "Every assembly back end (24 files, 27 target/ABI programs) is translated instruction by instruction into a TLA+ constant and executed by TLC in an ISA model (Mach32: ARM/RISC-V/Xtensa, MachAvr) for rounds 1..24 on structured and random inputs: final state = specification, write set, callee-saved registers, stack, return address, key, and a taint ghost for data-independent control flow; each program is also run once SYMBOLICALLY over GF(2) polynomials (Sym32/SymAvr), showing for all 2^128 states and all keys that every round of the loop body equals the specification's Step^128; the C back end is trace-validated against the bit-serial NLFSR; generated files are compared with fresh generator output.",
+    TLC + "; the ISA models cover exactly the instruction subsets the shipped files use; the portable C back end and the loop control are checked on concrete inputs only", "TLA+ ISA models executing the translated assembly in TLC, concretely and symbolically (GF(2) polynomials) + TLC trace validation of the C back end + byte comparison with generator output", "DESIGN.md 7 C05")
 chk('C06', 'exploration', "Sweep of every public function over exhaustive windows of length tuples, alignments, placements and NULL/0 with guard pages, canaries, read-only inputs, double runs with different pre-fills, ASan+UBSan and memcheck; TLC judges every recorded event against the footprint contract TJMem (TV_Obs).",
     TLC + "; guard pages, ASan/UBSan (clang 14) and valgrind 3.19 produce the observations", "exhaustive length-window sweep under guard pages/sanitizers/memcheck, events judged by TLC against the TLA+ buffer contract", "DESIGN.md 7 C06")
 chk('C07', 'exploration', "Every API over public shape classes is executed under valgrind memcheck on the -O3 objects of gcc and clang with all secrets marked undefined for the duration of the call; the count of secret-dependent branches/addresses inside each call is logged and TLC (TV_Obs) requires zero.",
